@@ -100,6 +100,13 @@ func genConf(r *rand.Rand, portBase int) ConfSpec {
 		}
 		cf.Services = append(cf.Services, svc)
 	}
+	// always, when there are two services: one secret (and cipher) of the first service also in the
+	// second one under another id - on each listener it is attributed to the id configured THERE
+	if len(cf.Services) >= 2 {
+		id++
+		o := cf.Services[0].Keys[0]
+		cf.Services[1].Keys = append(cf.Services[1].Keys, KeySpec{ID: fmt.Sprintf("u%d", id), Cipher: o.Cipher, Secret: o.Secret})
+	}
 	for p := 0; p < nLegacyPorts; p++ {
 		pn := nextPort()
 		for k := 0; k < 1+r.Intn(4); k++ {
